@@ -42,6 +42,9 @@ type c08Params struct {
 	// Full: the log file cannot grow any further (disk full): a write that cannot reach the
 	// file must not be acknowledged (the server may stop instead)
 	Full bool `json:"full,omitempty"`
+	// Sweeper: the expiry sweeper runs and removes (and logs the DEL of) an object
+	// at the tick the connections are released at
+	Sweeper bool `json:"sweeper,omitempty"`
 	// Prop: property the scenario is run for (default C08; C03 reuses two scenarios)
 	Prop string `json:"prop,omitempty"`
 }
@@ -55,7 +58,17 @@ func (p c08Params) prop() string {
 
 // isWrite tells whether a harness command is expected to be logged when it is
 // acknowledged with a success reply.
+// c08Expand: "@BIGSET key id n" stands for SET key id STRING <n bytes> (kept short in replay files).
+func c08Expand(cmd []string) []string {
+	if cmd[0] == "@BIGSET" {
+		n, _ := strconv.Atoi(cmd[3])
+		return []string{"SET", cmd[1], cmd[2], "STRING", strings.Repeat("y", n)}
+	}
+	return cmd
+}
+
 func c08LoggedBytes(cmd []string, shrink ...bool) [][]byte {
+	cmd = c08Expand(cmd)
 	if len(shrink) > 0 && shrink[0] && strings.ToUpper(cmd[0]) == "SET" {
 		return [][]byte{[]byte(fmt.Sprintf("\r\n$%d\r\n%s\r\n$%d\r\n%s\r\n", len(cmd[1]), cmd[1], len(cmd[2]), cmd[2]))}
 	}
@@ -75,6 +88,9 @@ func c08Run(job *Job, p c08Params, prefix []int) (out schedOut) {
 	keep := []string{}
 	if p.Flusher {
 		keep = append(keep, "backgroundSyncAOF")
+	}
+	if p.Sweeper {
+		keep = append(keep, "backgroundExpiring")
 	}
 	x := runExec(job, freezeAllBut(keep...), func(x *Exec) {
 		in := x.Start("L", x.dir+"/L", 9001, func(o *Options) { o.Spinlock = p.Spin })
@@ -152,10 +168,24 @@ func c08Run(job *Job, p c08Params, prefix []int) (out schedOut) {
 				vsched.Sleep(1)
 			}
 		}
+		if p.Sweeper {
+			// release at the sweeper tick that first sees the EX 1.1 object expired
+			for {
+				t := vsched.WakeTimeOf("L", "backgroundExpiring")
+				if t < 0 {
+					panic("sweeper not sleeping")
+				}
+				vsched.SleepUntil(t)
+				if vsched.Clock >= int64(1150*stdtime.Millisecond) {
+					break
+				}
+				vsched.Sleep(1)
+			}
+		}
 		for i, c := range p.Conns {
 			var seg []byte
 			for _, cmd := range c.Cmds {
-				seg = append(seg, respCmd(cmd...)...)
+				seg = append(seg, respCmd(c08Expand(cmd)...)...)
 			}
 			clis[i].c.Inject(seg)
 		}
@@ -257,6 +287,10 @@ func c08Scenarios(tier string) (scs []c08Params, bound int) {
 	scs = append(scs, c08Params{Pre: [][]string{set("p1")}, Conns: []c08Conn{{Cmds: [][]string{set("a")}}, {Cmds: [][]string{get}}}, Full: true})
 	// a write followed, in the same segment, by a read whose reply is larger than 4 MiB
 	scs = append(scs, c08Params{Pre: [][]string{{"@BIG", "kb", "big", "4300000"}}, Conns: []c08Conn{{Cmds: [][]string{set("a"), {"GET", "kb", "big"}}}, {Cmds: [][]string{get}}}})
+	// the expiry sweeper logs a DEL of its own between a connection's write and that connection's pre-reply flush
+	scs = append(scs, c08Params{Pre: [][]string{{"SET", "k", "e", "EX", "1.1", "POINT", "6", "6"}}, Conns: []c08Conn{{Cmds: [][]string{set("a"), get}}, {Cmds: [][]string{get}}}, Sweeper: true})
+	// one command larger than any chunk size of the log writer
+	scs = append(scs, c08Params{Conns: []c08Conn{{Cmds: [][]string{{"@BIGSET", "kb", "big5", "5300000"}}}, {Cmds: [][]string{get}}}})
 	if tier == "thorough" {
 		scs = append(scs,
 			c08Params{Conns: []c08Conn{{Cmds: [][]string{set("a"), set("c")}}, {Cmds: [][]string{set("b")}}}},
@@ -273,7 +307,7 @@ func c08Scenarios(tier string) (scs []c08Params, bound int) {
 func checkC08(job *Job, res *Result) {
 	res.Rule = "SCHED: every schedule of the released connections with <= bound preemptions at lock/atomic/cond/socket/file operations of the real server; distinct = distinct (scenario, order of commands in the log file, early-ack flag)"
 	res.Assumptions = append(res.Assumptions,
-		"polling loops other than backgroundSyncAOF are frozen: they never touch aofbuf, aofdirty or the log file",
+		"polling loops other than backgroundSyncAOF and (in one scenario) backgroundExpiring are frozen: the others never touch aofbuf, aofdirty or the log file",
 		"a process kill leaves exactly the completed file operations (page cache survives); power loss is outside the property",
 		"memory model: sequential consistency at the granularity of sync/atomic/socket/file operations")
 	if job.Replay != nil {
@@ -291,8 +325,16 @@ func checkC08(job *Job, res *Result) {
 	for i, p := range scs {
 		p := p
 		sc := schedScenario{Name: fmt.Sprintf("c08.%d", i), Params: p, Run: func(prefix []int) schedOut { return c08Run(job, p, prefix) }}
-		st := exploreSched(job, res, sc, bound)
-		res.Extra[sc.Name] = map[string]any{"execs": st.Execs, "by_bound": st.ByBound, "outcomes": len(st.Outcomes), "max_choice_points": st.MaxPoints}
+		b := bound
+		for _, cn := range p.Conns {
+			for _, cmd := range cn.Cmds {
+				if cmd[0] == "@BIGSET" {
+					b = bound - 2 // megabytes copied and searched per execution: default schedule (thorough: one preemption)
+				}
+			}
+		}
+		st := exploreSched(job, res, sc, max(b, 0))
+		res.Extra[sc.Name] = map[string]any{"execs": st.Execs, "by_bound": st.ByBound, "outcomes": len(st.Outcomes), "max_choice_points": st.MaxPoints, "bound": max(b, 0)}
 		if i == 0 {
 			res.Sample(map[string]any{"scenario": sc.Name, "params": p, "outcomes": st.Outcomes})
 		}
